@@ -212,24 +212,11 @@ def argument_kind_independence(ctx):
         ctx.check(f"cast_arg_list argument of class {cname}", got == ["Conv((u,64),arg0)"], "['Conv((u,64),arg0)']", str(got), fn_where(idx, fi))
 
 
-@rule("R03.3", "C03", "every conversion context routes its source through a conversion to the destination type (elision only under type equality)", min_instances=18)
-def r03_3(ctx):
+def assignment_conversion_checks(ctx):
+    """simple and compound assignment: the stored value has the destination type; the operation of `a op= b` is done in the type
+    C gives `a op b` (or, where narrowing commutes with the operator, in the target's type)"""
     idx = get_index(ctx.env)
     am = members_by_value(idx, "AssignmentType")
-
-    # --- initialisation: init_declarator
-    r = Runner(idx)
-    fi, outs = r.run("init_declarator", lambda: [Tok("IDENTIFIER", "v"), r.pure("items[1]", vt=wide("t1", True, 1, 64))])
-    good = [o for o in outs if o.kind != "raise"]
-    ctx.need(good, "init_declarator has no translating path")
-    for o in good:
-        v = o.value
-        ok = isinstance(v, AObj) and v.cls == "Assignment"
-        src = lab(v.fields.get("src")) if ok else lab(v)
-        dest = lab(v.fields.get("dest")) if ok else "?"
-        ctx.check("init_declarator source conversion", ok and src == f"Conv(type({dest}),items[1])", "Assignment(dest, Conv(type(dest),items[1]))", f"{lab(v) if not ok else 'src=' + src}", fn_where(idx, fi))
-
-    # --- simple and compound assignment
     for op in am:
         r = Runner(idx)
         fi, outs = r.run("assignment_expr", lambda: [r.pure("items[0]", vt=wide("t0", True, 1, 64)), Tok("ASSIGN_OP", op), r.pure("items[2]", vt=wide("t2", False, 1, 64))])
@@ -266,9 +253,36 @@ def r03_3(ctx):
                 a_, b_ = lab(ctor(nodes[-1], "a")), lab(ctor(nodes[-1], "b"))
                 if op in ("<<=", ">>="):
                     okb = b_ in ("Promo(items[2])", "items[2]")
+                elif op in ("/=", "%="):
+                    # quotient and remainder do not commute with narrowing: `a /= b` is a = (T)(a / b) computed in the COMMON type
+                    # (C11 6.5.16.2), a wide divisor must not be cut down to the target's width first
+                    okb = (a_, b_) == ("Common(Promo(items[0]),Promo(items[2])).0", "Common(Promo(items[0]),Promo(items[2])).1")
+                    ctx.check(f"assignment_expr[{op}] right operand conversion", okb, "both operands promoted and converted to their common type", f"a={a_}, b={b_}", fn_where(idx, fi))
+                    continue
                 else:
                     okb = b_ in ("Conv(type(items[0]),items[2])", "Promo(Conv(type(items[0]),items[2]))") or (a_.startswith("Common(") and b_.startswith("Common(") and a_[:-2] == b_[:-2])
                 ctx.check(f"assignment_expr[{op}] right operand conversion", okb, "source converted to the target's type (or both operands to their common type)", f"a={a_}, b={b_}", fn_where(idx, fi))
+
+
+
+@rule("R03.3", "C03", "every conversion context routes its source through a conversion to the destination type (elision only under type equality)", min_instances=18)
+def r03_3(ctx):
+    idx = get_index(ctx.env)
+    am = members_by_value(idx, "AssignmentType")
+
+    # --- initialisation: init_declarator
+    r = Runner(idx)
+    fi, outs = r.run("init_declarator", lambda: [Tok("IDENTIFIER", "v"), r.pure("items[1]", vt=wide("t1", True, 1, 64))])
+    good = [o for o in outs if o.kind != "raise"]
+    ctx.need(good, "init_declarator has no translating path")
+    for o in good:
+        v = o.value
+        ok = isinstance(v, AObj) and v.cls == "Assignment"
+        src = lab(v.fields.get("src")) if ok else lab(v)
+        dest = lab(v.fields.get("dest")) if ok else "?"
+        ctx.check("init_declarator source conversion", ok and src == f"Conv(type({dest}),items[1])", "Assignment(dest, Conv(type(dest),items[1]))", f"{lab(v) if not ok else 'src=' + src}", fn_where(idx, fi))
+
+    assignment_conversion_checks(ctx)
 
     # --- chained assignment a = b = e : the outer source is the (converted) value the inner target holds afterwards.
     #     The inner assignment is sequenced first (R05.6): a variable target is read back; a register target cannot be
